@@ -10,7 +10,7 @@ import (
 func init() { registry["C17"] = checkC17 }
 
 func checkC17(c *Check) {
-	c.Explanation = "Decided on all paths of the cert module: (R1) a certificate is stored only under a key that store.Has reported free, the key being (owner, serial of the parsed certificate); (R2) the write is dominated by a successful ParseAndValidateCertificate(owner, cert, pubkey) whose success returns are dominated by owner.Equals(address parsed from the certificate's Subject common name); the handler passes the signer as owner; the stored bytes are the submitted ones; (R3) the only state constants ever assigned are valid (constructor) and revoked (dominated by found and not-already-revoked); nothing deletes from the cert store, and a genesis export / import cycle keeps each certificate's state; (R4) key codec agreement: the minimum key length the reader accepts is not larger than the minimum length the writer can produce (layout extraction; big.Int.Bytes() may be empty), and the reader slices at the writer's boundary; (R5) every explicit panic reachable in the cert keeper is either guarded by the error of an infallible writer or discharged by R4; (R6) listings pair key and value of the same iterator element, restore the owner prefix they stripped, compare the stored state, and the pagination callback reports a hit iff the filter matches (never depending on the accumulate flag)."
+	c.Explanation = "Decided on all paths of the cert module: (R1) a certificate is stored only under a key that store.Has reported free, the key being (owner, serial of the parsed certificate); (R2) the write is dominated by a successful ParseAndValidateCertificate(owner, cert, pubkey) whose success returns are dominated by owner.Equals(address parsed from the certificate's Subject common name); the handler passes the signer as owner; the stored bytes are the submitted ones; (R3) the only state constants ever assigned are valid (constructor) and revoked (dominated by found and not-already-revoked); nothing deletes from the cert store, and a genesis export / import cycle keeps each certificate's state; (R4) key codec agreement: the minimum key length the reader accepts is not larger than the minimum length the writer can produce (layout extraction; big.Int.Bytes() may be empty), and the reader slices at the writer's boundary; (R5) every explicit panic reachable in the cert keeper is either guarded by the error of an infallible writer or discharged by R4; (R6) listings pair key and value of the same iterator element, restore the owner prefix they stripped, compare the stored state, and the pagination callback reports a hit iff the filter matches (never depending on the accumulate flag). The cert keeper is built on the cert module's own store key."
 	c.NotDecided = "pagination arithmetic inside the SDK; x509 parsing"
 	l := c.L
 	kpkg := "x/cert/keeper"
@@ -219,6 +219,7 @@ func checkC17(c *Check) {
 	c.serialBaseRule("R4")
 	c.keeperIterators(kpkg)
 	c.certGenesisRoundTrip("R3")
+	c.keeperStoreWiring("R6", "cert")
 	// lookup by (owner, serial) answers "not found" only on a store miss: whatever CreateCertificate accepted and
 	// stored under certificateKey(id) is found again (no extra rejection of ids in the reader)
 	{
@@ -303,7 +304,7 @@ func checkC17(c *Check) {
 			}
 			if strings.Contains(calleeMethod(call), "Unmarshal") {
 				a := call.Common().Args
-				if Sym(a[len(a)-2]) == "p:val" && strings.HasSuffix(Sym(a[len(a)-1]), "item.Certificate") {
+				if Sym(a[len(a)-2]) == "p:val" && decodedIntoResult(fn, a[len(a)-1]) {
 					okVal = true
 				}
 			}
@@ -601,4 +602,105 @@ func (c *Check) certGenesisRoundTrip(rule string) {
 		})
 	}
 	c.Ob(rule, "genesis export/import keeps a certificate's state", imp.Pos(), readsState, "ExportGenesis writes stored certificates (state included) into the genesis file, InitGenesis never reads the state and re-creates each one as valid: a revoked certificate is valid again after an export / import cycle")
+}
+
+// decodedIntoResult: the record decoded into dest is the Certificate of the response every success return hands back:
+// dest is &r.Certificate of the returned variable r, or a local whose value is stored into r.Certificate.
+func decodedIntoResult(fn *ssa.Function, dest ssa.Value) bool {
+	dest = stripConv(dest)
+	rets := successReturns(fn)
+	if len(rets) == 0 {
+		return false
+	}
+	for _, r := range rets {
+		ld, ok := r.Results[0].(*ssa.UnOp)
+		if !ok {
+			return false
+		}
+		res, ok := ld.X.(*ssa.Alloc)
+		if !ok {
+			return false
+		}
+		good := false
+		if fa, isFA := dest.(*ssa.FieldAddr); isFA && fa.X == ssa.Value(res) && fieldName(fa.X.Type(), fa.Field) == "Certificate" {
+			good = true
+		}
+		if src, isAl := dest.(*ssa.Alloc); isAl {
+			eachInstr(fn, func(i ssa.Instruction) {
+				st, isSt := i.(*ssa.Store)
+				if !isSt {
+					return
+				}
+				fa, isFA := st.Addr.(*ssa.FieldAddr)
+				if !isFA || fa.X != ssa.Value(res) || fieldName(fa.X.Type(), fa.Field) != "Certificate" {
+					return
+				}
+				if l2, isLd := st.Val.(*ssa.UnOp); isLd && l2.X == ssa.Value(src) {
+					good = true
+				}
+			})
+		}
+		if !good {
+			return false
+		}
+	}
+	return true
+}
+
+// keeperStoreWiring: every module's records live in the module's own KV store; the key layouts of different modules
+// overlap (one-byte prefix followed by an address), so a keeper that is handed another module's store key reads that
+// module's entries as its own: listings fail to decode or panic, and writes collide. In the function that builds the
+// keepers, the store-key argument of <mod>.NewKeeper is app.keys[<that module's StoreKey>], and nobody else gets it.
+func (c *Check) keeperStoreWiring(rule string, mod string) {
+	l := c.L
+	fn := l.Func("app", "AkashApp", "setAkashKeepers")
+	c.Analysed(fnName(fn))
+	want := mod
+	if o := l.Pkg("x/" + mod + "/types").Types.Scope().Lookup("StoreKey"); o != nil {
+		if k, ok := o.(*types.Const); ok {
+			want = strings.Trim(k.Val().ExactString(), "\"")
+		}
+	}
+	found := 0
+	eachInstrDeep(fn, func(i ssa.Instruction) {
+		call, ok := i.(*ssa.Call)
+		if !ok {
+			return
+		}
+		callee := ""
+		if g := call.Call.StaticCallee(); g != nil {
+			if g.Name() == "NewKeeper" {
+				callee = fnPkgPath(g)
+			}
+		} else if ld, isLd := call.Call.Value.(*ssa.UnOp); isLd {
+			if gl, isG := ld.X.(*ssa.Global); isG && gl.Name() == "NewKeeper" && gl.Pkg != nil {
+				callee = gl.Pkg.Pkg.Path()
+			}
+		}
+		if !strings.HasPrefix(callee, akash+"/x/") {
+			return
+		}
+		m := strings.Split(strings.TrimPrefix(callee, akash+"/x/"), "/")[0]
+		key := ""
+		for _, a := range call.Call.Args {
+			if lk, isLk := stripConv(a).(*ssa.Lookup); isLk {
+				if s, isS := strConst(lk.Index); isS {
+					key = s
+				}
+			}
+		}
+		if key == "" {
+			c.Info(rule, "store key handed to "+m+".NewKeeper is not a constant index of the key table, not decided", call.Pos(), "")
+			return
+		}
+		if m == mod {
+			found++
+			c.Ob(rule, "the "+mod+" keeper is built on the "+mod+" module's own store", call.Pos(), key == want, "the "+mod+" keeper is handed the store of \""+key+"\": it reads that module's entries as its own records (listings fail or panic) and its writes collide with them")
+		} else {
+			c.Ob(rule, "the "+m+" keeper does not share the "+mod+" module's store", call.Pos(), key != want, "the "+m+" keeper is handed the "+mod+" store: foreign entries appear among the "+mod+" records")
+		}
+	})
+	if found == 0 {
+		c.Fail("C17-%s lost instances: no %s.NewKeeper call in setAkashKeepers", rule, mod)
+	}
 }
